@@ -77,6 +77,7 @@ pub struct Run {
     inconclusive: Mutex<Vec<String>>,
     notes: Mutex<BTreeMap<String, J>>,
     exhaustive: Mutex<BTreeMap<String, bool>>,
+    timeouts: Mutex<Vec<(String, u64, u64)>>,
 }
 
 #[derive(Default)]
@@ -150,6 +151,7 @@ impl Run {
             inconclusive: Mutex::new(Vec::new()),
             notes: Mutex::new(BTreeMap::new()),
             exhaustive: Mutex::new(BTreeMap::new()),
+            timeouts: Mutex::new(Vec::new()),
         }
     }
 
@@ -284,6 +286,211 @@ impl Run {
         });
     }
 
+    pub fn is_child(&self) -> bool {
+        self.opts.extra.get("mode").map(|m| m == "child").unwrap_or(false)
+    }
+
+    /// Run every index of a family in its own child process (the cases may
+    /// kill the process: stack overflow, abort). In the child the closure runs
+    /// inline for the single requested index. A child that dies from a signal
+    /// is a violation of `death_oracle` with (family, index) as the witness; a
+    /// child that exceeds `timeout_s` is recorded as inconclusive unless
+    /// `timeout_is_violation`.
+    pub fn isolated<F>(&self, family: &str, total: u64, timeout_s: u64, death_sig_prefix: &str, f: F)
+    where
+        F: Fn(u64, &mut Local) + Sync,
+    {
+        if !self.opts.wants(family) {
+            return;
+        }
+        if self.is_child() {
+            if let Some(i) = self.opts.only_index(family) {
+                let mut l = Local::default();
+                f(i, &mut l);
+                self.merge(l);
+            }
+            return;
+        }
+        let indexes: Vec<u64> = match self.opts.only_index(family) {
+            Some(i) => vec![i],
+            None => (0..total).collect(),
+        };
+        let next = AtomicU64::new(0);
+        let exe = std::env::current_exe().expect("current_exe");
+        let jobs = self.opts.jobs.max(1).min(indexes.len().max(1));
+        std::thread::scope(|s| {
+            for _ in 0..jobs {
+                s.spawn(|| loop {
+                    let k = next.fetch_add(1, Ordering::Relaxed) as usize;
+                    if k >= indexes.len() {
+                        break;
+                    }
+                    let i = indexes[k];
+                    let dir = self
+                        .opts
+                        .out
+                        .as_ref()
+                        .and_then(|p| std::path::Path::new(p).parent().map(|d| d.to_path_buf()))
+                        .filter(|d| d.is_dir())
+                        .unwrap_or_else(std::env::temp_dir);
+                    let out = dir.join(format!(
+                        "wfverif-child-{}-{}-{}-{}.json",
+                        std::process::id(),
+                        self.opts.prop,
+                        family,
+                        i
+                    ));
+                    let mut cmd = std::process::Command::new(&exe);
+                    cmd.arg(&self.opts.prop)
+                        .args(["--tier", &self.opts.tier])
+                        .args(["--seed", &self.opts.seed.to_string()])
+                        .args(["--variant", &self.opts.variant])
+                        .args(["--jobs", "1"])
+                        .args(["--only", &format!("{}:{}", family, i)])
+                        .args(["--mode", "child"])
+                        .arg("--out")
+                        .arg(&out)
+                        .stdout(std::process::Stdio::null())
+                        .stderr(std::process::Stdio::piped());
+                    for (k, v) in &self.opts.extra {
+                        if k != "mode" {
+                            cmd.arg(format!("--{}", k)).arg(v);
+                        }
+                    }
+                    let started = Instant::now();
+                    let mut child = match cmd.spawn() {
+                        Ok(c) => c,
+                        Err(e) => {
+                            self.inconclusive(format!("cannot spawn child: {}", e));
+                            continue;
+                        }
+                    };
+                    // drain stderr in a helper thread so the child cannot block
+                    let mut stderr = child.stderr.take();
+                    let drain = std::thread::spawn(move || {
+                        let mut buf = String::new();
+                        if let Some(s) = stderr.as_mut() {
+                            use std::io::Read;
+                            let mut bytes = Vec::new();
+                            let _ = s.take(1 << 20).read_to_end(&mut bytes);
+                            buf = String::from_utf8_lossy(&bytes).into_owned();
+                        }
+                        buf
+                    });
+                    let status = loop {
+                        match child.try_wait() {
+                            Ok(Some(st)) => break Some(st),
+                            Ok(None) => {
+                                if started.elapsed().as_secs() > timeout_s {
+                                    let _ = child.kill();
+                                    let _ = child.wait();
+                                    break None;
+                                }
+                                std::thread::sleep(std::time::Duration::from_millis(5));
+                            }
+                            Err(_) => break None,
+                        }
+                    };
+                    let err_text = drain.join().unwrap_or_default();
+                    let tail: String = err_text.chars().rev().take(600).collect::<String>().chars().rev().collect();
+                    match status {
+                        None => {
+                            self.counter("children_timed_out", 1);
+                            self.child_timeout(family, i, timeout_s);
+                        }
+                        Some(st) => {
+                            use std::os::unix::process::ExitStatusExt;
+                            if let Some(sig) = st.signal() {
+                                self.violation(
+                                    &format!("{}/process-killed-by-signal-{}/{}", death_sig_prefix, sig, family),
+                                    "process-survives",
+                                    family,
+                                    i,
+                                    json!({"signal": sig, "stderr_tail": tail}),
+                                );
+                            } else if let Ok(text) = std::fs::read_to_string(&out) {
+                                if let Ok(doc) = serde_json::from_str::<J>(&text) {
+                                    self.absorb_child(&doc);
+                                } else {
+                                    self.inconclusive(format!("child {}:{} wrote no valid result", family, i));
+                                }
+                            } else {
+                                self.inconclusive(format!(
+                                    "child {}:{} exited with {:?} and no result: {}",
+                                    family,
+                                    i,
+                                    st.code(),
+                                    tail
+                                ));
+                            }
+                        }
+                    }
+                    let _ = std::fs::remove_file(&out);
+                    self.counter("children_run", 1);
+                });
+            }
+        });
+    }
+
+    fn child_timeout(&self, family: &str, i: u64, timeout_s: u64) {
+        self.timeouts
+            .lock()
+            .unwrap()
+            .push((family.to_string(), i, timeout_s));
+    }
+
+    /// (family, index, budget) of children that exceeded their time budget
+    pub fn take_timeouts(&self) -> Vec<(String, u64, u64)> {
+        std::mem::take(&mut *self.timeouts.lock().unwrap())
+    }
+
+    fn absorb_child(&self, doc: &J) {
+        self.evaluations
+            .fetch_add(doc["evaluations"].as_u64().unwrap_or(0), Ordering::Relaxed);
+        if let Some(c) = doc["counters"].as_object() {
+            for (k, v) in c {
+                self.counter(k, v.as_u64().unwrap_or(0));
+            }
+        }
+        if let Some(vs) = doc["violations"].as_array() {
+            for v in vs {
+                self.violation(
+                    v["sig"].as_str().unwrap_or("?"),
+                    v["oracle"].as_str().unwrap_or("?"),
+                    v["family"].as_str().unwrap_or("?"),
+                    v["index"].as_u64().unwrap_or(0),
+                    v["detail"].clone(),
+                );
+            }
+        }
+        if let Some(inc) = doc["inconclusive"].as_array() {
+            for r in inc {
+                self.inconclusive(r.as_str().unwrap_or("?").to_string());
+            }
+        }
+        if let Some(n) = doc["notes"].as_object() {
+            for (k, v) in n {
+                self.note(k, v.clone());
+            }
+        }
+        if let Some(s) = doc["samples"].as_object() {
+            for (fam, arr) in s {
+                if let Some(arr) = arr.as_array() {
+                    for x in arr {
+                        self.sample(fam, 4, || x.clone());
+                    }
+                }
+            }
+        }
+        if let Some(h) = doc["distinct_hashes"].as_array() {
+            for x in h {
+                if let Some(x) = x.as_u64() {
+                    self.distinct(x);
+                }
+            }
+        }
+    }
+
     pub fn finish(&self) -> J {
         let v = self.violations.lock().unwrap();
         let viol: Vec<J> = v
@@ -300,7 +507,17 @@ impl Run {
             })
             .collect();
         let samples: BTreeMap<String, Vec<J>> = self.samples.lock().unwrap().clone();
+        let distinct_hashes: Vec<u64> = if self.is_child() {
+            self.distinct
+                .iter()
+                .flat_map(|s| s.lock().unwrap().iter().copied().collect::<Vec<_>>())
+                .take(100_000)
+                .collect()
+        } else {
+            vec![]
+        };
         json!({
+            "distinct_hashes": distinct_hashes,
             "property": self.opts.prop,
             "tier": self.opts.tier,
             "seed": self.opts.seed,
